@@ -22,6 +22,7 @@ mod c16;
 mod c17;
 mod c18;
 mod c19;
+mod cli;
 mod common;
 mod corpus;
 mod diff;
